@@ -8,6 +8,8 @@ Definition astep' := astep KS EHASH MAXF P_PEERS_PER_DOC_CACHE_SIZE P_MAX_SET_SI
 Record case := mkCase {
   c_prop : N;                                       (* 14 or 12 *)
   c_hist : list (aop * ares * deliveries);
+  c_conc1 : list (aop * ares);                      (* then two clients at once, each awaiting its own requests in order *)
+  c_conc2 : list (aop * ares);
   c_final : list (N * list entry);                  (* store handed back by shutdown: content per document *)
   c_inflight_answered : bool }.                     (* a request in flight when shutdown is requested gets an answer (not: waits forever) *)
 
@@ -183,9 +185,35 @@ Fixpoint scan12 (t : tr12) (h : list (aop * ares * deliveries)) : bool :=
 
 Definition final_eqb (a b : N * list entry) : bool := (fst a =? fst b) && list_eqb entry_eqb (snd a) (snd b).
 
+(** replies only (the concurrent phase does not look at event deliveries) *)
+Fixpoint run_replies (s : astate) (h : list (aop * ares)) : option astate :=
+  match h with
+  | [] => Some s
+  | (o, r) :: rest => let '(s', r', _) := astep' s o in if ares_eqb r r' then run_replies s' rest else None
+  end.
+(** all interleavings of two request sequences that keep each sequence's order *)
+Fixpoint merges (fuel : nat) (a b : list (aop * ares)) : list (list (aop * ares)) :=
+  match fuel with
+  | O => []
+  | S f =>
+      match a, b with
+      | [], _ => [b]
+      | _, [] => [a]
+      | x :: a', y :: b' => map (cons x) (merges f a' b) ++ map (cons y) (merges f a b')
+      end
+  end.
+
 Definition check (c : case) : N :=
   let '(bad, s) := run_actor (ainit empty_tables) (c_hist c) 1 in
-  let m1 := (bad =? 0) && forallb (fun p => list_eqb entry_eqb (fs_all (fst p) (a_tables s)) (snd p)) (c_final c) in
-  let m2 := if c_prop c =? 14 then scan14 (mkT14 [] []) (c_hist c) && shutdown_ok c && c_inflight_answered c
+  let final_ok s := forallb (fun p => list_eqb entry_eqb (fs_all (fst p) (a_tables s)) (snd p)) (c_final c) in
+  (* linearizability of the concurrent phase: some interleaving explains every reply and the store handed back *)
+  let lin := existsb (fun il => match run_replies s il with Some s2 => final_ok s2 | None => false end)
+                     (merges (S (length (c_conc1 c) + length (c_conc2 c))) (c_conc1 c) (c_conc2 c)) in
+  let m1 := (bad =? 0) && lin in
+  let acks := c_hist c ++ map (fun p => (fst p, snd p, [])) (c_conc1 c ++ c_conc2 c) in
+  let c' := mkCase (c_prop c) acks [] [] (c_final c) (c_inflight_answered c) in
+  let m2 := if c_prop c =? 14 then scan14 (mkT14 [] []) (c_hist c) && shutdown_ok c' && c_inflight_answered c
+                                   (* the sequential part agrees with the model, the concurrent replies admit no order *)
+                                   && ((negb (bad =? 0)) || lin)
             else scan12 (mkT12 [] [] [] (mkT14 [] [])) (c_hist c) in
   bit (negb m1) 1 + bit (negb m2) 2.
